@@ -67,7 +67,7 @@ SCF_EPS = 1e-10
 SP2_EPS = 1e-7
 CIS_TOL = 1e-8
 K = 1000.0
-HORIZON = 6000  # cumulative per call; the largest count seen on healthy runs is ~1200 (SP2 iterations x SCF passes)
+HORIZON = 4000  # cumulative per call; the largest count seen on healthy runs is ~1200 (SP2 iterations x SCF passes)
 MD_STEPS = 4
 ENGINES = {
     "bomd": ("bomd", None),
@@ -417,10 +417,10 @@ def lattice(tier, seed):
             if len(bt) == 1 and w == 0:
                 continue  # that is the reference itself
             for method in METHODS:
-                # the full pattern alphabet for AM1 (quick) / for batches of size <= 2 (thorough); the rest
-                # of the lattice uses the two extreme patterns
-                reduced = (method != "AM1") if quick else (len(bt) == 3)
-                if reduced and pat not in ("zero", "mixed"):
+                # the full pattern alphabet for AM1 at width 1 (quick) / for batches of size <= 2 (thorough);
+                # the rest of the lattice uses the two extreme patterns (all zero, a different value per slot)
+                reduced = (method != "AM1" or w != 1) if quick else (len(bt) == 3)
+                if reduced and (pat not in ("zero", "mixed") or (len(bt) == 3 and w == 3)):
                     continue
                 for solver in SOLVERS:
                     cases.append(_case("gs", specs, w, pat, _cfg(method, solver), seed))
@@ -560,7 +560,7 @@ def run(chk, tier, seed):
         for s in c["mols"]:
             need.setdefault(ref_key(c["cfg"], s), (c["cfg"], [s[0], s[1], None], seed))
     keys = sorted(need)
-    res = pmap(compute_ref, [need[k] for k in keys], chunk=4, timeout=600, progress="C05 references")
+    res = pmap(compute_ref, [need[k] for k in keys], chunk=4, timeout=3600, progress="C05 references")
     hz_max = 0
     for k, r in zip(keys, res):
         if is_timeout(r) or is_error(r):
@@ -578,11 +578,11 @@ def run(chk, tier, seed):
     chk.extra["references"] = len(keys)
     # determinism: one sample case of each kind twice in two processes
     samples = [c for c in cases if c["sec"] == "gs" and len(c["mols"]) == 2][:1] + [c for c in cases if c["sec"] == "md"][:1]
-    twice = pmap(run_case, samples + samples, chunk=1, timeout=600)
+    twice = pmap(run_case, samples + samples, chunk=1, timeout=3600)
     for c, a, b in zip(samples, twice[: len(samples)], twice[len(samples) :]):
         if is_error(a) or is_timeout(a) or a != b:
             chk.harness_error(f"non-deterministic sample case {case_key(c)}: {a} vs {b}")
-    results = pmap(run_case, cases, chunk=8, timeout=900, progress="C05 lattice")
+    results = pmap(run_case, cases, chunk=8, timeout=3600, progress="C05 lattice")
     suspects = []
     n_sp2_excl = 0
     for c, r in zip(cases, results):
@@ -611,7 +611,7 @@ def run(chk, tier, seed):
             else:  # an exception / horizon trip is not a numerical disagreement: reported as it is
                 chk.violation(describe(c, r), f"{k}: {r['problems'][0]} (+{len(r['problems']) - 1} more)", replay=c)
     # every numerical disagreement is re-evaluated once in a fresh process with recomputed singles before it is reported
-    again = pmap(recheck, [c for c, _ in suspects], chunk=1, timeout=900, progress="C05 recheck")
+    again = pmap(recheck, [c for c, _ in suspects], chunk=1, timeout=3600, progress="C05 recheck")
     for (c, r), r2 in zip(suspects, again):
         k = case_key(c)
         if is_timeout(r2) or is_error(r2):
